@@ -295,7 +295,7 @@ def confirm(c, outs):
     import subprocess, os, replay_client, mirfront
     case = c['case']
     env = dict(os.environ); env['CARGO_NET_OFFLINE'] = 'true'; env.pop('RUSTFLAGS', None)
-    tdir = os.path.join(harness.ROOT, '.cache', 'bin-target')
+    tdir = os.path.join(harness.CACHE_DIR, 'bin-target')
     r = subprocess.run(['cargo', 'build', '--offline', '--quiet', '--bin', 'any', '--manifest-path', mirfront.REPO + '/Cargo.toml', '--target-dir', tdir], env=env, stdout=subprocess.PIPE, stderr=subprocess.PIPE)
     if r.returncode != 0: return False, 'binary does not build: ' + r.stderr.decode(errors='replace')[-300:]
     exe = os.path.join(tdir, 'debug', 'any')
@@ -308,7 +308,7 @@ def confirm(c, outs):
         parts.append(f'({q.numerator}/{q.denominator}) {text}'.strip())
         expect.append((q, [tuple(e) for e in it['names']]))
     if len(parts) != 1: return False, 'multi-result cases are not realised as one query'
-    env2 = dict(os.environ); env2.update({'XDG_DATA_HOME': os.path.join(harness.ROOT, '.cache', 'xdg-cli'), 'HOME': os.path.join(harness.ROOT, '.cache', 'home'), 'NO_COLOR': '1'})
+    env2 = dict(os.environ); env2.update({'XDG_DATA_HOME': os.path.join(harness.CACHE_DIR, 'xdg-cli'), 'HOME': os.path.join(harness.CACHE_DIR, 'home'), 'NO_COLOR': '1'})
     args = [exe] + (['--exact'] if case['exact'] else []) + [parts[0]]
     o = subprocess.run(args, env=env2, stdout=subprocess.PIPE, stderr=subprocess.PIPE, timeout=120)
     line = o.stdout.decode(errors='replace').split('\n')[0]
